@@ -9,6 +9,7 @@ mod cerr;
 mod cldb;
 mod cldbsrc;
 mod conv;
+mod coresyms;
 mod deps;
 mod entry;
 mod purity;
@@ -35,6 +36,7 @@ fn main() {
         "dis" => asm::run_dis(&rest),
         "base" => base::run(&rest),
         "compile" => compile::run(&rest),
+        "coresyms" => coresyms::run(&rest),
         "conv" => conv::run(&rest),
         "entry" => entry::run(&rest),
         "cldbmain" => entry::cldb_main(&rest),
